@@ -39,11 +39,26 @@ Proof.
   exact (S (rows, cols) (in_shapes 16 rows cols Hr Hc)).
 Qed.
 
-(* F-TIP-T: the same call on the TRANSPOSED 2x3 matrix (which still owns its whole storage) *)
-Lemma tip_transposed_refuted :
+(* Tip on a TRANSPOSED matrix (fix 2ffe99c; formerly finding F-TIP-T): the storage is left alone and the
+   resulting header is literally the header T() would have returned -- for every header, also a window *)
+Lemma tip_on_transposed_is_T : forall (H : heap) (m : mat), d_transposed m = true ->
+  mTip H m = ROk (H, DenseP.T m).
+Proof. intros H [v r c ro rm co cm t] E. simpl in E. subst t. reflexivity. Qed.
+Lemma tip_on_transposed_reads_T : forall real (H : heap) (m : mat), d_transposed m = true ->
+  exists H' m', mTip H m = ROk (H', m') /\ H' = H /\ d_transposed m' = false /\
+    (d_rows m', d_cols m') = (d_cols m, d_rows m) /\
+    (forall i j, mAT real H' m' i j = mAT real H (k_T real m) i j) /\
+    read_all real H' m' = read_all real H (k_T real m).
+Proof.
+  intros real H m E. exists H, (DenseP.T m). rewrite (tip_on_transposed_is_T H m E).
+  assert (KT : k_T real m = DenseP.T m) by (destruct real; reflexivity). rewrite KT.
+  repeat split. simpl. rewrite E. reflexivity.
+Qed.
+(* the former F-TIP-T witness, now a regression case: [[1,2,3],[4,5,6]].T().Tip() reads [[1,2,3],[4,5,6]] *)
+Lemma tip_transposed_regression :
   let s := [1; 2; 3; 4; 5; 6] in
   let m := DenseP.T (new_mat 0 2 3) in
   wf 6 m /\
-  (H' <- (r <- mTip [s] m ;; ROk r) ;; read_all false (fst H') (snd H')) = ROk [1; 5; 4; 3; 2; 6] /\
+  (H' <- (r <- mTip [s] m ;; ROk r) ;; read_all false (fst H') (snd H')) = ROk [1; 2; 3; 4; 5; 6] /\
   read_all false [s] (DenseP.T m) = ROk [1; 2; 3; 4; 5; 6].
 Proof. vm_compute. repeat split; try lia; discriminate. Qed.
